@@ -31,6 +31,8 @@ def show(cfg):
     wp = ", ".join(f"W{i}[{p['domain']},gran={p['gran']}]" for i, p in enumerate(cfg["wports"]))
     rp = ", ".join(f"R{i}[{p['domain']},transp={p['transparent']}]" for i, p in enumerate(cfg["rports"]))
     rs = "; resets " + ", ".join(f"{d}:{k}" for d, k in sorted(cfg["reset"].items())) if cfg.get("reset") else ""
+    if cfg.get("edge"):
+        rs += "; edges " + ", ".join(f"{d}:{k}" for d, k in sorted(cfg["edge"].items()))
     return f"Memory(shape={s}, depth={cfg['depth']}, init={cfg['init']}); {wp}; {rp}{rs}"
 
 
@@ -76,7 +78,7 @@ def build(cfg):
         d = p["domain"]
         if d != "comb" and d not in doms:
             kind = (cfg.get("reset") or {}).get(d)
-            doms[d] = ClockDomain(d, reset_less=kind is None, async_reset=kind == "async")
+            doms[d] = ClockDomain(d, reset_less=kind is None, async_reset=kind == "async", clk_edge=(cfg.get("edge") or {}).get(d, "pos"))
             m.domains += doms[d]
     if cfg.get("struct"):
         shape = entry_struct()
@@ -180,8 +182,9 @@ def concrete_run(cfg, rows, ins, rdata, event):
         async def tb(ctx):
             for i, v in enumerate(rows):
                 ctx.set(mem.data[i], _row_value(cfg, v))
-            for d in doms.values():
-                ctx.set(d.clk, 0)
+            negc = {d_ for d_, k_ in (cfg.get("edge") or {}).items() if k_ == "neg"}
+            for dn_, d in doms.items():
+                ctx.set(d.clk, 1 if dn_ in negc else 0)
             for qi, q in enumerate(cfg["rports"]):
                 if q["domain"] != "comb" and len(rps[qi].data):
                     ctx.set(rps[qi].data, _row_value(cfg, rdata[qi]))
@@ -205,7 +208,7 @@ def concrete_run(cfg, rows, ins, rdata, event):
             if event:
                 from amaranth.hdl import Cat
                 clks = [doms[d].clk if not d.startswith("!") else doms[d[1:]].rst for d in event]
-                ctx.set(Cat(*clks), (1 << len(clks)) - 1)
+                ctx.set(Cat(*clks), sum((0 if (not d.startswith("!") and d in negc) else 1) << j for j, d in enumerate(event)))
             out["rows"] = [_as_int(ctx.get(mem.data[i])) for i in range(cfg["depth"])]
             out["rdata"] = [_as_int(ctx.get(rp.data)) for rp in rps]
         sim.add_testbench(tb)
@@ -240,6 +243,109 @@ def oracle_concrete(cfg, rows, ins, rdata, event):
             nd[qi] = o.read(nr, ins["r"][qi][0])
     out["rows"], out["rdata"] = nr, nd
     return out
+
+
+def check_config_and_rtlil(job):
+    """The simulator half, a testbench partial-row write, and (for a share of the configurations) the RTLIL half through C04's
+    translation validation of the same memory."""
+    out = check_config(job)
+    cfg = job["cfg"]
+    if any(x.get("status") == "skipped" for x in out):
+        return out
+    out.extend(partial_row_write(job))
+    if job.get("rtlil") and cfg.get("array") is None and not cfg.get("struct"):
+        from checks import c04
+        for x in c04.check_design({"id": job["id"] + "-rtlil", "spec": {"family": "memory", "cfg": cfg}}):
+            if x.get("status") != "skipped":
+                out.append(dict(x, id=job["id"] + "-rtlil-" + x["kind"].split(" ")[0] + "-" + x["kind"].split(" ")[-1], kind="RTLIL: " + x["kind"]))
+    return out
+
+
+def partial_row_write(job):
+    """ctx.set on a bit range of a memory row changes exactly those bits of that row (symbolic row contents and value)."""
+    cfg = job["cfg"]
+    w, sg = cfg["shape"]
+    base = {"id": job["id"] + "-rowslice", "program": show(cfg), "nontrivial": True, "kind": "testbench write to part of a row",
+            "assertion": "engine.set_value(mem.data[i][lo:hi], v) replaces exactly bits [lo:hi) of row i", "symbolic": "row contents, written value"}
+    if w < 2 or cfg["depth"] == 0 or cfg.get("array") is not None or cfg.get("struct"):
+        return []
+    try:
+        with warnings.catch_warnings():
+            warnings.simplefilter("ignore")
+            m, mem, wps, rps, doms = build(cfg)
+            sim = symsim.SymSim(m)
+    except Exception as ex:
+        return []
+    i = (hash(job["id"]) >> 3) % cfg["depth"]
+    lo = 1 + (hash(job["id"]) % (w - 1)) if w > 2 else 1
+    hi = w
+    v = fresh("wv", hi - lo + 1, False)
+
+    def scen():
+        sim.reset()
+        sim.sym_state("v")
+        ms = sim.mem_slot(mem.data)
+        before = list(ms.data)
+        sim.settle()
+        sim.engine.set_value(mem.data[i][lo:hi], v)
+        sim.engine.step_design()
+        return before, list(ms.data)
+    try:
+        paths = explore(scen, max_paths=64)
+    except (Inconclusive, Unsupported) as e:
+        return [dict(base, status=INCONCLUSIVE, detail=str(e))]
+    for p in paths:
+        if p.exc is not None:
+            return [dict(base, status=ERROR, detail=f"exception: {type(p.exc).__name__}: {p.exc}")]
+        before, after = p.value
+        diffs = []
+        for k in range(cfg["depth"]):
+            if k == i:
+                msk = refsem.mask(hi - lo) << lo
+                want = (refsem.to_unsigned(before[k], w) & ~msk) | ((refsem.to_unsigned(v, hi - lo) << lo) & msk)
+                ne = refsem.to_unsigned(after[k], w) != want
+            else:
+                ne = neq_term(after[k], before[k])
+            if ne is True:
+                diffs.append(z3.BoolVal(True))
+            elif ne is not False:
+                diffs.append(bool_term(ne))
+        if not diffs:
+            continue
+        s = z3.Solver()
+        for c in p.pc:
+            s.add(c)
+        s.add(z3.Or(*diffs))
+        r = timed_check(s)
+        if r == z3.unknown:
+            return [dict(base, status=INCONCLUSIVE, detail="solver unknown")]
+        if r == z3.sat:
+            mdl = s.model()
+            crow = [eval_in_model(mdl, x) for x in before]
+            cv = eval_in_model(mdl, v)
+            # replay on the genuine simulator
+            from amaranth.sim import Simulator
+            got = []
+            with symsim.real_states(), warnings.catch_warnings():
+                warnings.simplefilter("ignore")
+                m2, mem2, _, _, _ = build(cfg)
+                sim2 = Simulator(m2)
+
+                async def tb(ctx):
+                    for k_, rv in enumerate(crow):
+                        ctx.set(mem2.data[k_], rv)
+                    ctx.set(mem2.data[i][lo:hi], cv & ((1 << (hi - lo)) - 1))
+                    got.extend(_as_int(ctx.get(mem2.data[k_])) & ((1 << w) - 1) for k_ in range(cfg["depth"]))
+                sim2.add_testbench(tb)
+                sim2.run()
+            want = [x & ((1 << w) - 1) for x in crow]
+            msk = ((1 << (hi - lo)) - 1) << lo
+            want[i] = (want[i] & ~msk) | (((cv & ((1 << (hi - lo)) - 1)) << lo) & msk)
+            if got != want:
+                return [dict(base, status=VIOLATION, detail=f"{show(cfg)}: rows {crow}, ctx.set(mem.data[{i}][{lo}:{hi}], {cv}): rows become {got}, expected {want}",
+                             signature={"kind": "row-slice-write"}, replay={"cfg": cfg, "initial": True})]
+            return [dict(base, status=UNREPRODUCED, detail=f"rows {crow} value {cv}: did not reproduce")]
+    return [dict(base, status=PROVED)]
 
 
 def check_config(job):
@@ -290,7 +396,8 @@ def check_config(job):
 
         def scenario():
             sim.reset()
-            vars_ = sim.sym_state("v")
+            neg = {d_ for d_, k_ in (cfg.get("edge") or {}).items() if k_ == "neg"}
+            vars_ = sim.sym_state("v", clocks=[(doms[d_].clk, 1) for d_ in doms if d_ in neg])
             ms = sim.mem_slot(mem.data)
             rows = list(ms.data)
             wins = [(sim.value(p.addr), sim.value(p.data.as_value() if hasattr(p.data, "as_value") else p.data), sim.value(p.en)) for p in wps]
@@ -305,7 +412,7 @@ def check_config(job):
             sim.settle()
             comb_before = [rd(p) for p in rps]
             if event:
-                sim.edge(*[((doms[d].clk, 1) if not d.startswith("!") else (doms[d[1:]].rst, 1)) for d in event])
+                sim.edge(*[((doms[d].clk, 0 if d in neg else 1) if not d.startswith("!") else (doms[d[1:]].rst, 1)) for d in event])
             rows1 = list(ms.data)
             rdata1 = [rd(p) for p in rps]
             # testbench view of the rows (real eval_value on MemoryData._Row)
@@ -475,6 +582,7 @@ def configs(tier, seed):
     # the same write port named twice in a transparency set (a tuple, not a set, in the API)
     corner += [{"shape": (4, False), "depth": 3, "init": [1, 2, 3], "wports": [{"domain": "sync", "gran": None}, {"domain": "sync", "gran": None}],
                 "rports": [{"domain": "sync", "transparent": [0, 0]}, {"domain": "sync", "transparent": [1, 0, 1]}]}]
+    corner += [dict(corner[0], edge={"sync": "neg"}), dict(corner[6], edge={"rd": "neg"}), dict(corner[2], edge={"sync": "neg"}, reset={"sync": "async"})]
     corner += [dict(corner[0], reset={"sync": "sync"}), dict(corner[0], reset={"sync": "async"}), dict(corner[2], reset={"sync": "async"}),
                dict(corner[6], reset={"wr": "async", "rd": "sync"}), dict(corner[1], reset={"sync": "async"})]
     out.extend(corner)
@@ -508,6 +616,8 @@ def configs(tier, seed):
         cfg = {"shape": (w, sg), "depth": depth, "init": init, "wports": wports, "rports": rports}
         if r.random() < 0.3:
             cfg["reset"] = {d: r.choice(["sync", "async"]) for d in doms if r.random() < 0.8}
+        if r.random() < 0.25:
+            cfg["edge"] = {d: "neg" for d in doms if r.random() < 0.7}
         if arr is not None:
             cfg["array"] = arr
         out.append(cfg)
@@ -592,8 +702,8 @@ def main(tier, seed):
     from vlib.pysym.selfcheck import selfcheck
     rep.extra["pysym_selfcheck_comparisons"] = selfcheck(seed)
     cfgs = configs(tier, seed)
-    jobs = [{"id": f"cfg-{i:05d}", "cfg": c} for i, c in enumerate(cfgs)]
-    results, stats = run.run_jobs(check_config, jobs, chunksize=2)
+    jobs = [{"id": f"cfg-{i:05d}", "cfg": c, "rtlil": (tier != "quick" or i % 3 == 0 or i < 20)} for i, c in enumerate(cfgs)]
+    results, stats = run.run_jobs(check_config_and_rtlil, jobs, chunksize=2)
     skipped = [r for r in results if r.get("status") == "skipped"]
     results = [r for r in results if r.get("status") != "skipped"]
     rep.extra["unconstructible_programs_skipped"] = len(skipped)
